@@ -21,7 +21,6 @@ const (
 	c07N3   = "C07.N3-sentinel-index"
 	c07N4   = "C07.N4-const-offset"
 	c07N5   = "C07.N5-make-len"
-	c07N5r  = "C07.N5-repeat-count"
 	c07N5d  = "C07.N5-divisor"
 	c07N5iv = "C07.N5-cbc-iv"
 	c07N6   = "C07.N6-search-bound"
@@ -35,14 +34,13 @@ func c07RegisterRules(r *Report, floors bool) {
 		return 0
 	}
 	r.Rule(c07N1, "every explicit panic / log.Fatal* / os.Exit / runtime.Goexit reachable from an entry point belongs to the documented programmer-misuse set (NewParser, aescbcaead Seal, ttlcache.Set, errors.Build)", f(6))
-	r.Rule(c07N2, "every unchecked type assertion x.(T) in scope is discharged: sync.Pool of one type, exact reflect.Type equality on a decode hook's from-type, Kind-guard with string-only callers, Implements-guard, or a third-party result whose documented dynamic types all satisfy T", f(16))
-	r.Rule(c07N3, "a result of strings/bytes.Index* used as a slice bound or index is known to be >= 0 (dominating test against -1 / <0, or a dominating Has*/Contains fact that implies a match)", f(2))
-	r.Rule(c07N4, "every index/slice with constant (or len-constant) bounds of a slice or string has a length fact that covers it on every path (local guards, switch-case value sets, API models, call-site minima for private functions)", f(30))
-	r.Rule(c07N5, "the length of every make([]T, n) in scope is provably non-negative", f(12))
-	r.Rule(c07N5r, "the count of bytes.Repeat / strings.Repeat is provably non-negative", f(1))
-	r.Rule(c07N5d, "a non-constant integer divisor is provably >= 1", f(2))
-	r.Rule(c07N5iv, "the iv handed to cipher.NewCBCEncrypter/NewCBCDecrypter has a dominating len(iv) == block-size test", f(4))
-	r.Rule(c07N6, "SpecSchedule.Next: the year limit test exists, returns, and is passed by every cycle that leaves a field-search loop; every field-search loop advances t by a positive constant on each iteration; counting loops stepped by a parameter have step >= 1", f(12))
+	r.Rule(c07N2, "every unchecked type assertion x.(T) in scope is discharged: sync.Pool of one type, exact reflect.Type equality on a decode hook's from-type, Kind-guard with string-only callers, Implements-guard, or a third-party result whose documented dynamic types all satisfy T", f(10))
+	r.Rule(c07N3, "a result of strings/bytes.Index* used as a slice bound or index is known to be >= 0 (dominating test against -1 / <0, or a dominating Has*/Contains fact that implies a match); no floor of its own: the anchors are exported std-lib functions and code that stops using Index* (strings.Cut, ...) has nothing to check — the joint floor of N3+N4 guards against vacuity", 0)
+	r.Rule(c07N4, "every index/slice with constant (or len-constant) bounds of a slice or string has a length fact that covers it on every path (local guards, switch-case value sets, API models, call-site minima for private functions)", f(24))
+	r.Rule(c07N5, "every allocation size in scope is provably non-negative: the length of make([]T, n) and the count of bytes/strings/slices.Repeat", f(12))
+	r.Rule(c07N5d, "a non-constant integer divisor is provably >= 1", f(1))
+	r.Rule(c07N5iv, "the iv handed to cipher.NewCBCEncrypter/NewCBCDecrypter has a dominating len(iv) == block-size test (in the function or in every caller chain; constructor reached statically or through a function value)", f(2))
+	r.Rule(c07N6, "SpecSchedule.Next: the year limit test exists, returns, and is passed by every cycle that leaves a field-search loop; every field-search loop advances t by a positive constant on each iteration; counting loops stepped by a parameter have step >= 1; every bit-set field of SpecSchedule must be seen in some search loop (else UNDECIDED)", f(7))
 }
 
 func checkC07(c *Ctx) {
@@ -51,10 +49,13 @@ func checkC07(c *Ctx) {
 		"N1: explicit panic/log.Fatal/os.Exit/Goexit sites in scope ⊆ the documented misuse set. N2: unchecked type assertions are discharged by one of five reviewed idioms, else classified by where the operand's dynamic type comes from (third-party parser result with a documented type set, reflect.Value.Interface without a Type() test, a decode hook's data without any guard) and reported. " +
 		"N3: strings/bytes.Index* results used as slice bounds/indices are tested against -1 (or a dominating Has*/Contains fact implies a match). N4: constant and len-minus-constant indices/slice bounds are covered by a length lower bound from the lenbound engine (edge facts on the CFG incl. switch-case unions, s==\"const\", HasPrefix, err==nil summaries of module callees, API models, package-level literals, call-site minima for private functions). " +
 		"N5: make lengths and Repeat counts non-negative, non-constant divisors >= 1, CBC iv length tested. N6: the five-year bound of SpecSchedule.Next is on every cycle that leaves a field-search loop and every search loop advances t by a positive constant. " +
+		"Calls through function values (dispatch tables, func-typed fields, callbacks, method values) and module-declared interface seams are followed in both directions: their targets are in scope, and the call sites bound the targets' parameters (a bound tied to the dispatch key of a multi-target call is never claimed exact). N6 is decided over Next AND the module functions it calls: search loops may live in helpers; a give-up test is recognised in the exact form t.Year() > start+k, through a limit kept in a local/struct/AddDate form, or — form not evaluated — as a returning test inside the driving cycle that compares the time reached with a value fixed before the search; wrap-around tests are told apart because they only look at the loop-carried time. " +
 		"A site the engine cannot classify (operand of unknown origin, a dominating condition it cannot interpret, variable indices) is counted in the evidence (unclassified_*) and never reported. " +
 		"NOT decided: variable-index bounds (ParseISO8601Duration's scanner, readHeader, processSegments), reflection panics (reflect.Value.Elem/Interface on invalid values), nil dereferences, panics inside third-party code (jwx, mapstructure, x509, cast, resource.ParseQuantity), panicking preconditions of AEAD/CBC primitives other than the iv length (C03 decides those by scenarios), recursion depth of config.Normalize / resolveAliasesInType, termination of loops fed by a reader that returns (0, nil) forever, integer overflow in length arithmetic, and whether Next's result is correct (C04)."
 	r.Assumptions = append(r.Assumptions,
-		"call graph: static calls plus function values created in scope; interface-dispatched calls into the module other than the listed entry points (cipher.AEAD methods of aescbcaead, Schedule.Next) are not followed",
+		"call graph: static calls, function values created in scope, calls through function values whose targets are visible in the module (func-typed fields, package-level or local tables of functions or of structs holding functions, callback parameters, method values, results of module functions) and invokes on interfaces declared in the module (resolved to the module types implementing them); invokes on interfaces declared elsewhere are not followed except for the listed entry points (the cipher.AEAD methods of the crypto/aescbcaead implementation, resolved by role, and Schedule.Next)",
+		"function values are tracked field-/cell-based and flow-insensitively: every function stored into a func-typed field (T,f) may be called wherever (T,f) is called; a function whose value only reaches unexported cells that are only called has no callers outside the module (reflection aside)",
+		"a package-level map/slice initialised once from a literal and only read afterwards keeps its literal keys/elements; a successful lookup (v, ok := m[k] with ok; m[k] in a map[string]bool; slices.Contains) means k is one of them",
 		"x509.ParsePKCS8PrivateKey returns only *rsa.PrivateKey, *ecdsa.PrivateKey, ed25519.PrivateKey or *ecdh.PrivateKey; x509.ParsePKIXPublicKey only *rsa.PublicKey, *dsa.PublicKey, *ecdsa.PublicKey, ed25519.PublicKey or *ecdh.PublicKey (documented)",
 		"strings/bytes.Index* return -1 exactly when there is no match; strings.Split with a non-empty separator returns at least one element; strings.HasPrefix(s,p) implies len(s) >= len(p)",
 		"length arithmetic does not overflow int",
@@ -62,9 +63,11 @@ func checkC07(c *Ctx) {
 		"a value stored once into a package-level variable by the package initialiser and never stored to or address-taken elsewhere keeps that value")
 	c07RegisterRules(r, true)
 
-	sc := c07BuildScope(p, c07ResolveEntries(p, c07Entries))
-	misuse := c07BuildScope(p, c07ResolveEntries(p, c07MisuseEntries))
-	eng := newC07Engine(p, sc)
+	entries := c07ResolveEntries(p, c07Entries)
+	fv := newC07FV(p, entries)
+	sc := c07BuildScope(p, entries, fv)
+	misuse := c07BuildScope(p, c07ResolveEntries(p, c07MisuseEntries), fv)
+	eng := newC07Engine(p, sc, fv)
 	st := &c07State{c: c, p: p, r: r, sc: sc, eng: eng, stats: map[string]int{}, unclass: map[string][]string{}}
 
 	if os.Getenv("C07_DEBUG") != "" {
@@ -85,6 +88,11 @@ func checkC07(c *Ctx) {
 			fmt.Printf("OB %s | %s | %s | %s | %s\n", o.Rule, o.Construct, o.Status, o.Pos, o.Message)
 		}
 	}
+	if n := r.RuleCount[c07N3] + r.RuleCount[c07N4]; n < 26 {
+		r.Undecide("rules C07.N3+N4 generated %d obligations together, below their joint floor 26 (anchors moved or rules went vacuous)", n)
+	}
+	r.Stats["dynamic_calls_resolved"] = len(fv.DynTargets)
+	r.Stats["dynamic_calls_unresolved_in_module"] = len(fv.Unresolved)
 	r.Stats["scope_functions"] = len(sc.List)
 	r.Stats["scope_entry_points"] = len(c07Entries)
 	keys := make([]string, 0, len(st.stats))
@@ -108,8 +116,9 @@ func checkC07(c *Ctx) {
 				ents = append(ents, fn)
 			}
 		}
-		fsc := c07BuildScope(fp, ents)
-		fst := &c07State{c: c, p: fp, r: fr, sc: fsc, eng: newC07Engine(fp, fsc), stats: map[string]int{}, unclass: map[string][]string{}, fixture: true}
+		ffv := newC07FV(fp, ents)
+		fsc := c07BuildScope(fp, ents, ffv)
+		fst := &c07State{c: c, p: fp, r: fr, sc: fsc, eng: newC07Engine(fp, fsc, ffv), stats: map[string]int{}, unclass: map[string][]string{}, fixture: true}
 		fst.checkN2()
 		fst.checkN3()
 		fst.checkN4()
